@@ -1,10 +1,17 @@
 import GLua.Engines.TableEng
 import GLua.Engines.SemEng
+import GLua.Engines.StrEng
+import GLua.Engines.RequireEng
+import GLua.Engines.IoEng
+import GLua.Engines.ApiEng
 import GLua.Engines.TableLibEng
 open GLua GLua.Eng
 
 structure DState where
   tbl : TableEng.St := []
+  req : RequireEng.St := {}
+  io : IoEng.St := {}
+  api : ApiEng.St := {}
   c18 : TableLibEng.St := {}
 
 def stepLine (s : DState) (line : String) : DState × String :=
@@ -13,6 +20,10 @@ def stepLine (s : DState) (line : String) : DState × String :=
   | "reset" :: _ => ({}, "ok")
   | "T" :: r => let (t, v) := TableEng.handle s.tbl r; ({ s with tbl := t }, v.show)
   | "S" :: r => (s, SemEng.handle r)
+  | "C15" :: r => (s, (StrEng.handle r).show)
+  | "C20" :: r => let (t, v) := RequireEng.handle s.req r; ({ s with req := t }, v.show)
+  | "IO" :: r => let (t, v) := IoEng.handle s.io r; ({ s with io := t }, v.show)
+  | "C10" :: r => let (t, v) := ApiEng.handle s.api r; ({ s with api := t }, v.show)
   | "C18" :: r => let (t, v) := TableLibEng.handle s.c18 r; ({ s with c18 := t }, v.show)
   | _ => (s, "MODEL bad-engine")
 
